@@ -308,7 +308,7 @@ func (vc *VC) applyContract(st *State, c *Contract, key string, sig *types.Signa
 		}
 	}
 	for _, en := range c.Ensures {
-		if usesCall(en.E, "callres") || usesCall(en.E, "keys") {
+		if usesCall(en.E, "callres") || usesCall(en.E, "callarg") || usesCall(en.E, "keys") {
 			continue // internal clause (own call sites / own literal tables): not part of the interface
 		}
 		t, err := post.EvalBool(en.E)
@@ -945,13 +945,33 @@ func (vc *VC) doDefer(st *State, x *ssa.Defer) {
 			return
 		}
 	}
-	st.defers = append(append([]*ssa.Defer{}, st.defers...), x)
+	st.defers = append(append([]deferEntry{}, st.defers...), deferEntry{d: x, guard: "true"})
 }
 
+type deferEntry struct {
+	d     *ssa.Defer
+	guard Term // the deferred call was registered on this execution
+	args  []Val
+}
+
+// runDefers executes the registered deferred calls in LIFO order; a call registered only on some
+// paths (conditional defer) is executed under its guard and the two outcomes are merged.
 func (vc *VC) runDefers(st *State) {
 	for i := len(st.defers) - 1; i >= 0; i-- {
-		d := st.defers[i]
-		vc.callCommon(st, &d.Call, d.Call.Signature().Results(), d)
+		de := st.defers[i]
+		if de.guard == "true" {
+			vc.callCommon(st, &de.d.Call, de.d.Call.Signature().Results(), de.d)
+			continue
+		}
+		yes := st.clone()
+		yes.defers = nil
+		vc.assume(yes, de.guard)
+		vc.callCommon(yes, &de.d.Call, de.d.Call.Signature().Results(), de.d)
+		no := st.clone()
+		no.defers = nil
+		vc.assume(no, not(de.guard))
+		m := vc.mergeStates([]*State{yes, no})
+		st.heap, st.ep, st.alloc, st.pc = m.heap, m.ep, m.alloc, m.pc
 	}
 	st.defers = nil
 }
